@@ -90,13 +90,24 @@ theorem tie_calculateChangesStmts : calculateChangesStmts =
      "}",
      "return add, remove"] := by decide
 
-/-- `subset`: shuffle, everything when `len ≤ sub`, else the first `sub` — `GoZero.C13.subset`. -/
-theorem tie_subsetStmts : subsetStmts =
-    ["rand.Shuffle(len(set), func(i, j int) { set[i], set[j] = set[j], set[i] })",
-     "if len(set) <= sub {",
-     "return set",
-     "}",
-     "return set[:sub]"] := by decide
+/-- `subset`: shuffle, everything when `len ≤ sub`, else the first `sub` — `GoZero.C13.subset`.  Two forms are
+accepted until fixes/C13-subset-copies-snapshot.patch is applied: the fixed one shuffles a copy; the pinned one
+shuffles the caller's slice — the cached snapshot of `Values()` — in place (witness
+`shared_snapshot_shuffle_corrupts`; the harness reports it as `resolver-shuffles-the-shared-snapshot`). -/
+theorem tie_subsetStmts :
+    subsetStmts =
+      ["set = append([]string(nil), set...)",
+       "rand.Shuffle(len(set), func(i, j int) { set[i], set[j] = set[j], set[i] })",
+       "if len(set) <= sub {",
+       "return set",
+       "}",
+       "return set[:sub]"]
+    ∨ subsetStmts =
+      ["rand.Shuffle(len(set), func(i, j int) { set[i], set[j] = set[j], set[i] })",
+       "if len(set) <= sub {",
+       "return set",
+       "}",
+       "return set[:sub]"] := by decide
 
 /-- kube `diff`: sizes differ or an old element is missing — `kdiff`. -/
 theorem tie_kubeDiffStmts : kubeDiffStmts =
@@ -146,9 +157,14 @@ theorem tie_notifyChangeShape : notifyChangeShape =
      "call listener",
      "}"] := by decide
 
-/-- `handleChanges`: newVals from kvs (later entries win), calculateChanges, replace watcher.values, then all
-OnAdd, then all OnDelete — `emit (.reload …)`, `stepValues`. -/
-theorem tie_handleChangesShape : handleChangesShape =
+/-- the deliveries are serialised by the cluster's notifyLock (ConcJoin.lean, `fx = true`) -/
+def notifyLocked : List String :=
+  ["call c.notifyLock.Lock",
+   "defer{",
+   "call c.notifyLock.Unlock",
+   "}"]
+
+def handleChangesBody : List String :=
     ["call c.lock.Lock",
      "if !ok {",
      "call c.lock.Unlock",
@@ -170,10 +186,9 @@ theorem tie_handleChangesShape : handleChangesShape =
      "range listeners {",
      "call l.OnDelete",
      "}",
-     "}"] := by decide
+     "}"]
 
-/-- `handleWatchEvents`: PUT sets the key and calls OnAdd, DELETE deletes it and calls OnDelete — `emit`, `stepValues`. -/
-theorem tie_handleWatchEventsShape : handleWatchEventsShape =
+def handleWatchEventsBody : List String :=
     ["call c.lock.RLock",
      "if !ok {",
      "call c.lock.RUnlock",
@@ -200,7 +215,135 @@ theorem tie_handleWatchEventsShape : handleWatchEventsShape =
      "default:",
      "call logc.Errorf",
      "}",
-     "}"] := by decide
+     "}"]
+
+/-- Registry.Monitor before fixes/C13-registry-join-and-reload.patch: append the listener, read the current
+values, replay them — three steps that interleave with handleWatchEvents (ConcJoin, `fx = false`). -/
+def monitorPinned : List String :=
+    ["call r.getOrCreateCluster",
+     "if exists {",
+     "call c.lock.Lock",
+     "if ok {",
+     "store watcher.listeners",
+     "}",
+     "call c.lock.Unlock",
+     "if ok {",
+     "call c.getCurrent",
+     "range kvs {",
+     "call l.OnAdd",
+     "}",
+     "return",
+     "}",
+     "}",
+     "call c.monitor",
+     "return"]
+
+def monitorFixed : List String :=
+    ["call r.getOrCreateCluster",
+     "if exists && c.join(wkey, l) {",
+     "return",
+     "}",
+     "call c.monitor",
+     "return"]
+
+/-- cluster.join (fixed code): under the notifyLock: append the listener, replay `getCurrent` — `ConcJoin.step`
+`.join`, sequentially `runLate`. -/
+def joinFixed : List String :=
+    ["call c.notifyLock.Lock",
+     "defer{",
+     "call c.notifyLock.Unlock",
+     "}",
+     "call c.lock.Lock",
+     "if ok {",
+     "store watcher.listeners",
+     "}",
+     "call c.lock.Unlock",
+     "if !ok {",
+     "return",
+     "}",
+     "range c.getCurrent(key) {",
+     "call l.OnAdd",
+     "}",
+     "return"]
+
+/-- `handleChanges`: newVals from kvs (later entries win), calculateChanges, replace watcher.values, then all
+OnAdd, then all OnDelete — `emit (.reload …)`, `stepValues`; `handleWatchEvents`: PUT sets the key and calls OnAdd,
+DELETE deletes it and calls OnDelete — `emit`, `stepValues`; a listener joins through Monitor / join.
+Either all of them are the fixed form (every delivery and the join's append + replay under the notifyLock:
+`late_join_atomic`) or all of them are the pinned form (witness `pinned_late_join_loses_event`, reported by the
+harness as `late-joiner-differs-from-registry`): a half-applied patch does not pass. -/
+theorem tie_deliveryShapes :
+    (handleChangesShape = notifyLocked ++ handleChangesBody
+      ∧ handleWatchEventsShape = notifyLocked ++ handleWatchEventsBody
+      ∧ monitorShape = monitorFixed ∧ joinShape = joinFixed)
+    ∨ (handleChangesShape = handleChangesBody
+      ∧ handleWatchEventsShape = handleWatchEventsBody
+      ∧ monitorShape = monitorPinned ∧ joinShape = []) := by decide
+
+/-- `getCurrent`: the watcher's values under the read lock (what a joining listener is told) — `ValidJoin`. -/
+theorem tie_getCurrentShape : getCurrentShape =
+    ["call c.lock.RLock",
+     "defer{",
+     "call c.lock.RUnlock",
+     "}",
+     "if !ok {",
+     "return",
+     "}",
+     "range watcher.values {",
+     "}",
+     "return"] := by decide
+
+/-- `cluster.reload` (connection-state change): cancel the watches, wait for the watch goroutines, start new ones
+that `load` (-> handleChanges: `Ev.reload`) and watch.  Fixed form: the wait happens *without* the cluster lock
+(the watch goroutine needs it to finish the response it is handling) and reloads are serialised; the pinned form
+waits holding the lock (reported by the harness as `reload-deadlocks-while-a-watch-response-is-handled`). -/
+theorem tie_reloadShape :
+    reloadShape =
+      ["call c.reloadLock.Lock",
+       "defer{",
+       "call c.reloadLock.Unlock",
+       "}",
+       "call c.lock.Lock",
+       "close c.done",
+       "call c.lock.Unlock",
+       "call c.watchGroup.Wait",
+       "call c.lock.Lock",
+       "range c.watchers {",
+       "if wval.cancel != nil {",
+       "call wval.cancel",
+       "}",
+       "}",
+       "store c.done",
+       "call threading.NewRoutineGroup",
+       "store c.watchGroup",
+       "call c.lock.Unlock",
+       "range keys {",
+       "func{",
+       "call c.load",
+       "call c.watch",
+       "}",
+       "call c.watchGroup.Run",
+       "}"]
+    ∨ reloadShape =
+      ["call c.lock.Lock",
+       "close c.done",
+       "call c.watchGroup.Wait",
+       "range c.watchers {",
+       "if wval.cancel != nil {",
+       "call wval.cancel",
+       "}",
+       "}",
+       "store c.done",
+       "call threading.NewRoutineGroup",
+       "store c.watchGroup",
+       "call c.lock.Unlock",
+       "range keys {",
+       "func{",
+       "call c.load",
+       "call c.watch",
+       "}",
+       "call c.watchGroup.Run",
+       "}"] := by decide
 
 /-- discovBuilder.Build: update = UpdateState(subset(sub.Values(), subsetSize)); registered as listener and called once. -/
 theorem tie_discovBuildShape : discovBuildShape =
